@@ -132,7 +132,7 @@ class ReconnH(explore.Harness):
         if beh.endswith("+slow-close"):
             conn.slow_close = True  # when the controller closes this connection, connection_lost arrives late (explorer decides when)
             beh = beh[: -len("+slow-close")]
-        if beh in ("wrong-id", "bad-sig", "auth-error", "garbage", "m4-auth-error", "busy-error", "http-400", "http-470"):
+        if beh in ("wrong-id", "bad-sig", "auth-error", "garbage", "m4-auth-error", "busy-error", "http-400", "http-470", "bad-tag", "short-key"):
             sess.fault = beh
         elif beh == "ok-close-on-subscribe":
             sess.close_on_subscribe = True
@@ -530,6 +530,12 @@ class ReconnH(explore.Harness):
 
             if isinstance(self.conn._last_connector_error, AuthenticationError) and self.conn._connector is not None and self.conn._connector.done():
                 self.auth_failed_at = now
+                # the model's own idea of an authentication failure: the accessory SAID so (error item 0x02 in M2 / M4).  A reply that is merely
+                # damaged, of another identity, or badly signed is a failed attempt like any other and is followed by further attempts
+                last = self.net.conns[-1] if self.net.conns else None
+                beh = getattr(last, "behaviour", None)
+                if beh is not None and "auth-error" not in beh and not self.p.get("damage"):
+                    self.viol.append((f"c10:retries-ended-as-an-authentication-failure-though-the-accessory-reported-none:{beh}", {"error": repr(self.conn._last_connector_error)[:120], "t": now}))
         self._check_callers()
 
     def _no_trigger_since(self, t):
